@@ -21,7 +21,7 @@ open LccModel.Report LccModel.Session LccModel.Run
 def Quiet {α : Type} (L : Loc) (m : M α) : Prop := TrA (JT L) (PIn L (fun _ _ _ => True)) m
 
 theorem userOk_true (L : Loc) : UserOk (PIn L (fun _ _ _ => True)) :=
-  ⟨fun _ _ _ _ => trivial, fun _ _ _ _ _ => trivial, fun _ _ _ _ => trivial⟩
+  ⟨fun _ _ _ _ => trivial, fun _ _ _ _ _ => trivial, fun _ _ _ _ => trivial, fun _ _ _ _ => trivial⟩
 
 /-- what quietness means for the emitted items -/
 theorem Quiet.no_test_or_suite_event {α : Type} {L : Loc} {m : M α} (h : Quiet L m) (ts : TS) (hj : JT L ts.sess) :
@@ -255,7 +255,7 @@ theorem cnt_mono {α : Type} {J J' : St → Prop} {p : Path} {m : M α} {a n : N
 theorem inner_noBE (L : Loc) (p : Path) : Inner (JC L) (NoBE p) :=
   (inner_JC L (fun _ _ _ => True)).mono (fun _ _ => rfl)
 
-theorem userOk_noBE (p : Path) : UserOk (NoBE p) := ⟨fun _ _ _ _ => rfl, fun _ _ _ _ _ => rfl, fun _ _ _ _ => rfl⟩
+theorem userOk_noBE (p : Path) : UserOk (NoBE p) := ⟨fun _ _ _ _ => rfl, fun _ _ _ _ _ => rfl, fun _ _ _ _ => rfl, fun _ _ _ _ => rfl⟩
 
 theorem uActs_noBE (p : Path) : UActs (NoBE p) (.body p) := by
   intro r w hw
@@ -397,5 +397,50 @@ example : ∃ tm, (runTask PA Insts.empty 0 ⟨.begin, ["s"]⟩ true false [] no
 /-- the count bound is tight in the model: a body that is entered is counted -/
 example : ([Item.user 0 (.body ["s", "t"]) "enter", .user 0 (.body ["s", "t"]) "exit"].filter (isBodyEnter ["s", "t"])).length = 1 := by
   decide
+
+/-! ### Attachment blocks (`with lcc.prepare_attachment(..):` around further acts of the same thread)
+
+  The act `attachBlock inner` of the run model: entry is a public-API call (`apiAct`: the interrupt check), the
+  inner script runs as the child unit `blk u i` on the SAME thread, normal exit fires the attachment event
+  (`attachEnd`, no interrupt check), an exception leaves the block without event (`attachAbort`) and leaves the unit
+  around it too.  Every theorem above is stated for all scripts and therefore covers blocks nested to any depth,
+  blocks in `lcc.Thread`s and threads started inside blocks (`Lemmas/RunTask.tra_exec` has the case).  What is specific
+  to blocks: entering one never depends on other blocks — the name is taken under the lock and the lock is RELEASED
+  before the body runs. -/
+
+/-- **Entering a block is always possible**: in every session state — any number of blocks open, by any threads,
+    the calling thread included (nested blocks) — `attachBegin` is accepted, opens one more block, fires nothing
+    and leaves every cursor alone.  (A run that waits there — the attachment lock kept during the body — is not a
+    behaviour of the model: the acceptor then stops at that record and the C01 oracle reports the hang.) -/
+theorem attach_block_entry_always_enabled (s : St) (tid : Nat) (f d : String) (img : Bool) :
+    ∃ s', Session.step s tid (.attachBegin f d img) = .ok s' ∧ s'.prepared.length = s.prepared.length + 1 ∧
+      s'.fired = s.fired ∧ s'.cursors = s.cursors :=
+  ⟨_, rfl, by simp, rfl, rfl⟩
+
+open Sample in
+/-- the test `b.w` of `Sample.PBlocks` (its body nests blocks, saves attachments inside them, changes the step
+    inside, starts a thread inside and finally raises `AbortSuite` from inside two blocks; the `setup_test` hook of its
+    suite has a block too) is started and ended exactly once, its body entered once — the general theorems, instantiated -/
+example : (runTask PBlocks Insts.empty 0 ⟨.test, ["b", "w"]⟩ true false [] none).items.filterMap testLevel =
+      [.start ["b", "w"], .end_ ["b", "w"]] ∧
+    ((runTask PBlocks Insts.empty 0 ⟨.test, ["b", "w"]⟩ true false [] none).items.filter (isBodyEnter ["b", "w"])).length ≤ 1 := by
+  have hsv : (allSuites PBlocks).find? (fun sv => sv.path == (["b", "w"] : Path).dropLast) =
+      some ⟨["b"], sBlocks, false⟩ := by rfl
+  have ht : (⟨["b"], sBlocks, false⟩ : SuiteView).spec.tests.find? (fun x => x.name == (["b", "w"] : Path).getLast?.getD "") = some tBlocks := by rfl
+  refine ⟨?_, body_at_most_once PBlocks Insts.empty 0 ⟨.test, ["b", "w"]⟩ true false [] none rfl _ hsv _ ht⟩
+  have := test_terminal_pattern PBlocks Insts.empty 0 ⟨.test, ["b", "w"]⟩ true false [] none rfl _ hsv _ ht
+  simpa [testDisabledNow, tBlocks, sBlocks, PBlocks] using this
+
+open Sample in
+/-- … and what the model computes for it: eight attachment events (two in the `setup_test` hook, six in the first
+    block of the body: the blocks' own events carry the step that is current when the block is LEFT), none for the
+    two blocks left by the exception; the suite is aborted; no model error -/
+example :
+    ((runTask PBlocks Insts.empty 0 ⟨.test, ["b", "w"]⟩ true false [] none).items.filter
+        (fun x => match x with | .ev (.attachment ..) => true | _ => false)).length = 8 ∧
+    (runTask PBlocks Insts.empty 0 ⟨.test, ["b", "w"]⟩ true false [] none).res = .failure ∧
+    (runTask PBlocks Insts.empty 0 ⟨.test, ["b", "w"]⟩ true false [] none).eff.abortedSuites = [some ["b"]] ∧
+    (runTask PBlocks Insts.empty 0 ⟨.test, ["b", "w"]⟩ true false [] none).err = none := by
+  decide +kernel
 
 end LccModel.C01Run
